@@ -157,7 +157,14 @@ def Acct.codeHash (o : Acct) : Bytes :=
 
 def copyOrNew (o : Option Inner) : Inner := o.getD {}
 
-/-- `SimpleAccount.GetState` -/
+/-- the `bool` of `GetState`: a key exists iff its value is non-empty (on every read path, since the
+`fix:` commit "a storage key with an empty value does not exist") -/
+def present (v : Bytes) : Bool :=
+  match v with
+  | some s => s != ""
+  | none => false
+
+/-- `SimpleAccount.GetState` (the value; `present` of it is the flag) -/
 def getState (l : L) (a : Addr) (k : String) : L × Bytes :=
   let (l1, acc) := getOrCreate l a
   match KV.get acc.dirtyState k with
@@ -229,12 +236,11 @@ current block (a key deleted in the block is dropped); sorted.  The account cach
 consulted, so between a flush and its commit the result is the committed state. -/
 def query (l : L) (a : Addr) (pfx : String) : L × List Bytes :=
   let (l1, acc) := getOrCreate l a
-  let dbm : KV String Bytes := (l1.db.state.filter (fun p => p.1.1 == a && p.1.2.startsWith pfx)).map (fun p => (p.1.2, some p.2))
+  -- keys with an empty value do not exist (stored empty, or emptied / deleted in this block)
+  let dbm : KV String Bytes := ((l1.db.state.filter (fun p => p.1.1 == a && p.1.2.startsWith pfx)).filter (fun p => p.2 != "")).map (fun p => (p.1.2, some p.2))
   let m := acc.dirtyState.foldl (fun m p =>
     if p.1.startsWith pfx then
-      match p.2 with
-      | none => KV.erase m p.1
-      | some v => KV.set m p.1 (some v)
+      if present p.2 then KV.set m p.1 p.2 else KV.erase m p.1
     else m) dbm
   (l1, (m.map (·.2)).mergeSort (fun x y => x.getD "" ≤ y.getD ""))
 
